@@ -227,12 +227,13 @@ pub fn run(r: &mut Runner) -> &'static str {
         .into();
     r.assumptions.push("a hang inside a parser would surface as a watchdog timeout (exit 2), not as a violation; TLV iteration is bounded by a step cap".into());
     let n = r.n(300_000, 8_000_000);
-    r.random("c03.surface", n, 200, &gen_case, &judge);
+    r.random("c03.surface", n, 200, &gen_case, &|x: &Vec<u8>, st: &mut Stats| crate::engine::in_arena(x, |v| judge(v, st)));
     // the same check over chains of related inputs judged back to back on one thread (history independence)
     let n = r.n(30000, 600000);
     r.random("c03.chains", n, 260, &|t| crate::gen::gen_chain(t, &gen_case), &|c: &crate::engine::Chain, st: &mut Stats| {
+        // every member is parsed from this thread's reusable read buffer (same address, new contents)
         for x in &c.0 {
-            judge(x, st)?;
+            crate::engine::in_arena(x, |v| judge(v, st))?;
         }
         Ok(())
     });
